@@ -143,11 +143,11 @@ Fixpoint insert_before_first_later (t : Z) (p : par) (b : body) : option body :=
       else match insert_before_first_later t p r with Some r' => Some ((s, ps) :: r') | None => None end
   end.
 
-(* _find_closest_sync; when there is no other sync the new one is never attached (the paragraph is lost) *)
+(* _find_closest_sync; when there is no earlier and no later sync the new one is appended to the body *)
 Definition find_closest (t : Z) (p : par) (b : body) : body :=
   match insert_after_last_earlier t p b with
   | Some b' => b'
-  | None => match insert_before_first_later t p b with Some b' => b' | None => b end
+  | None => match insert_before_first_later t p b with Some b' => b' | None => b ++ [(t, [p])] end
   end.
 
 (* _recreate_sync + sync.append(p) *)
